@@ -124,7 +124,8 @@ func buildOps() []op {
 		ops = append(ops, op{"expose", []string{p}, func() snippet.Snippet { return snippet.PkgExpose(p, "Z") },
 			func(n func(string) string) string { return n(p) + ".Z" }})
 	}
-	for _, pr := range [][2]string{{"a/b", "c/a/b"}, {"ab", "a/b"}, {"x/v2", "x/b/v2"}, {"fmt", "foo/fmt"}, {"b", target}} {
+	// (the last three have single-segment argument paths: no '/' anywhere in the argument list)
+	for _, pr := range [][2]string{{"a/b", "c/a/b"}, {"ab", "a/b"}, {"x/v2", "x/b/v2"}, {"fmt", "foo/fmt"}, {"b", target}, {"a/b", "fmt"}, {"x/b", "ab"}, {"fmt", "b"}} {
 		p, q := pr[0], pr[1]
 		ops = append(ops, op{"generic", []string{p, q}, func() snippet.Snippet { return snippet.ID(p + ".G[" + q + ".T,int]") },
 			func(n func(string) string) string {
